@@ -302,6 +302,16 @@ def c05e(tree, ob):
     sorts = [c for c in calls_in(fa.func) if pm('self._tx_chain.sort()', c) is not None]
     if not sorts:
         ob.violate(AGENT, fa.qual, 'self._tx_chain.sort()', 'the TX chain is not ordered', fa.func)
+    # ... by the order value (the comparison of ChainStep) and the sort comes after every application added its steps
+    lt = tree.find_method('bp/util.py', 'ChainStep', '__lt__')
+    ltr = [r for r in walk_local(lt[2]) if isinstance(r, ast.Return)] if lt else []
+    if not lt or len(ltr) != 1 or (pm('self.order < other.order', ltr[0].value) is None and pm('other.order > self.order', ltr[0].value) is None):
+        ob.violate('bp/util.py', 'ChainStep.__lt__', 'self.order < other.order', 'chain steps are not ordered by their order value: security and fragmentation steps run in another order than declared', lt[2] if lt else None)
+    else:
+        ob.site('bp/util.py', lt[2], 'ChainStep ordered by order')
+    adders = [n for n in walk_local(fa.func) if isinstance(n, ast.For) and any(isinstance(c.func, ast.Attribute) and c.func.attr == 'add_chains' for c in calls_in(n))]
+    if sorts and (not adders or fa.node(sorts[0]) not in fa.cfg.reachable([fa.node(adders[0].iter)]) or enclosing(sorts[0], (ast.For,)) is not None):
+        ob.violate(AGENT, fa.qual, 'self._tx_chain.sort()', 'the TX chain is sorted before the applications have added their steps', sorts[0])
     fv = FuncView(tree, FRAG, Q)
     outs = [c for c in calls_in(fv.func) if call_name(c) == 'glib.idle_add']
     o = one(outs, 'fragment hand-off', ob)
